@@ -293,7 +293,7 @@ def run_shard(spec):
         nt, cl = classify(seq, info)
         st_.case(seq, nt, cl, sample={"seq": seq} if count[0] % 200 == 1 else None)
 
-    res = runner.hyp_search(sequences(), body, seed=runner.derive_seed(seed, ID, i), max_examples=300 if tier == "quick" else 5000)
+    res = runner.hyp_search(sequences(), body, seed=runner.derive_seed(seed, ID, i), max_examples=1500 if tier == "quick" else 12000)
     if res is not None:
         seq, v = res
         st_.fail({"seq": seq, "nh": 3}, v.message, v.signature)
